@@ -211,14 +211,15 @@ def r5_anchors(ctx, res):
         key = 'anchor:shortest:depth'
         dep = v.find('store', text_re=r'^#1\[\$3\[1\]\] = len\(\$2\) - \$3\[0\] - 1$')
         res.inst(key, v.loc(), f'{[r[1] for r in dep]}')
-        if not dep or not any(f'$3[1] in {_COMMON}' in g for r in dep for g in r[2]) \
-                or not any('$3[1] not in #1 or #1[$3[1]] < len($2) - $3[0] - 1' in g for r in dep for g in r[2]):
+        optional = {_COMMON, 'synset != other'}          # follow from the early returns, may or may not be spelled
+        need_dep = {f'$3[1] in {_COMMON}', '$3[1] not in #1 or #1[$3[1]] < len($2) - $3[0] - 1'}
+        if len(dep) != 1 or (set(dep[0][2]) - optional) != need_dep:
             res.find(key, v.loc(), '_shortest_hyp_paths no longer records, for each common hypernym met on a path, the maximum of '
                                    '`len(path) - position - 1` as its depth')
         key = 'anchor:shortest:subpaths'
         sub = v.find('call', '#2[$3[1]][$1[0]].append($2[:$3[0] + 1])')
         res.inst(key, v.loc(), f'{len(sub)}')
-        if not sub or not all(c[0] == f'for {both}' for _, _, _, c, _ in sub):
+        if len(sub) != 1 or not all(c[0] == f'for {both}' for _, _, _, c, _ in sub) or (set(sub[0][2]) - optional) != {f'$3[1] in {_COMMON}'}:
             res.find(key, v.loc(), '_shortest_hyp_paths no longer collects, per side and common hypernym, the sub-path up to that hypernym')
     lch_max = f'max((_2 for _1, _2 in {_SHP}), default=-1)'
     expect(res, 'anchor:lch', T('lowest_common_hypernyms'), [
